@@ -29,6 +29,7 @@ macro_rules! dispatch {
             "C17" => $f(&props::c17::C17, $($arg),*),
             "C18" => $f(&props::c18::C18, $($arg),*),
             "C19" => $f(&props::c19::C19, $($arg),*),
+            "C20" => $f(&props::c20::C20, $($arg),*),
             _ => { eprintln!("unknown property {}", $id); 2 }
         }
     };
